@@ -62,16 +62,22 @@ def run(ctx: Ctx):
         okc = norm(on[0].body) == f"{p} in self.deps" and norm(off[0].body) == "True" and deps_src == "self.ode.dependents()"
     ctx.check(okc, "R12.a", init.key("_condition"), "_condition = (name in ode.dependents()) when remove_unused else True", f"CodeGenerator.__init__: the liveness predicate is not `x in self.ode.dependents()` / `True` (deps = {deps_src}, lambdas = {[norm(l) for _, l, _ in lambdas]})", init.where())
 
-    sa_f = sm.func("ode.py", "ODE.sorted_assignments")
-    comps = [n for n in ast.walk(sa_f.node) if isinstance(n, (ast.SetComp, ast.ListComp, ast.GeneratorExp)) and any("deps" in norm(c) or "dependents" in norm(c) for g in n.generators for c in g.ifs)]
-    okf = False
-    if comps:
-        g = comps[0].generators[0]
-        v = g.target.id if isinstance(g.target, ast.Name) else "?"
-        cond = norm(g.ifs[0]) if g.ifs else ""
-        deps_def = [norm(n.value) for n in ast.walk(sa_f.node) if isinstance(n, ast.Assign) and norm(n.targets[0]) == "deps"]
-        okf = cond in (f"{v}.name not in deps", f"{v}.name in deps") and deps_def == ["self.dependents()"] and norm(g.iter) in ("self.intermediates", "intermediates")
-    ctx.check(okf, "R12.a", sa_f.key("filter"), "an intermediate is dropped iff its name is not in self.dependents()", "ODE.sorted_assignments: the unused-filter is not `a.name [not] in self.dependents()` over the intermediates", sa_f.where())
+    from . import util
+
+    sa_f = util.nf(ctx, "ode.py", "ODE.sorted_assignments")
+    tests = []
+    for n in ast.walk(sa_f.node):
+        if isinstance(n, ast.Compare) and len(n.ops) == 1 and isinstance(n.ops[0], (ast.In, ast.NotIn)) and norm(n.left).endswith(".name"):
+            tests.append((n, util.ctext(sa_f, n.comparators[0])))
+    live = [t for t in tests if t[1] in ("self.dependents()", "self.dependents().keys()", "set(self.dependents())", "set(self.dependents().keys())", "frozenset(self.dependents())")]
+    other = [t for t in tests if t not in live and "unused" not in t[1] and "dependents" in t[1]]
+    okf = bool(live) and not other
+    # the tested element ranges over the intermediates
+    if okf:
+        var = norm(live[0][0].left)[: -len(".name")]
+        rng = [util.ctext(sa_f, l.iter) for l in ast.walk(sa_f.node) if isinstance(l, (ast.For, ast.comprehension)) and isinstance(l.target, ast.Name) and l.target.id == var]
+        okf = bool(rng) and all(r in ("self.intermediates", "intermediates") for r in rng)
+    ctx.check(okf, "R12.a", sa_f.key("filter"), "an intermediate is dropped iff its name is not in self.dependents()", "ODE.sorted_assignments: the unused-filter is not a membership test of an intermediate's name in self.dependents()", sa_f.where())
 
     # ---- R12.b reads covered -----------------------------------------------------------------
     ctx.rule("R12.b", "only rhs filters the state unpacking; scheme / monitor_values / missing_values unpack every state; unpack helpers are pure", floor=8)
